@@ -481,7 +481,9 @@ pub fn write_zooms(file: &mut FSink,
         
         r matches Ok(v) ==> (v@.len() == 0 ==> final(file).data() == old(file).data()),
         
-        r matches Ok(v) ==> (options.manual_zoom_sizes is None ==> v@.len() <= umax(options.max_zooms as int, 1)),
+        r matches Ok(v) ==> (options.manual_zoom_sizes is None && options.max_zooms >= 1 ==> v@.len() <= options.max_zooms),
+        
+        r matches Ok(v) ==> (options.manual_zoom_sizes is None && options.max_zooms == 0 ==> v@.len() <= 1),
         
         r matches Ok(v) ==> (options.manual_zoom_sizes is None ==> forall|j: int| 0 <= j < v@.len() ==>
             zooms@[lvl_of(zooms@, (#[trigger] v@[j]).reduction_level)].data.staged().len() <= data_size / 2),
